@@ -70,7 +70,7 @@ func (t *Tokenizer) Parse(buf []byte, handler TokenHandler) (err error) {
 	t.mode = valueMap
 	t.mi = 0
 	// Skip BOM if present.
-	if 3 < len(buf) && buf[0] == 0xEF {
+	if 2 < len(buf) && buf[0] == 0xEF {
 		if buf[1] == 0xBB && buf[2] == 0xBF {
 			err = t.tokenizeBuffer(buf[3:], true)
 		} else {
@@ -110,7 +110,7 @@ func (t *Tokenizer) Load(r io.Reader, handler TokenHandler) (err error) {
 	}
 	var skip int
 	// Skip BOM if present.
-	if 3 < len(buf) && buf[0] == 0xEF && buf[1] == 0xBB && buf[2] == 0xBF {
+	if 2 < len(buf) && buf[0] == 0xEF && buf[1] == 0xBB && buf[2] == 0xBF {
 		skip = 3
 	}
 	for {
